@@ -921,6 +921,102 @@ def gen_attrs_case(rnd):
     return {'lines': lines, 'tags': {'family': 'attrs'}}
 
 
+def gen_race_case(rnd):
+    """family race (check-then-act): a write / action / query request is authorised for the object that has a name, another
+    writer deletes that object and creates a new one of the same name (for which the permission filter is usually false) before
+    the handler acts; directed schedule, see harness op pm_race.  Every addressing mode, with and without the name lock."""
+    FREE_SHARE[0] = 0.0
+    teams = ['blue', 'red', 'green']
+    nh = rnd.choice((2, 3, 3))
+    hosts = rnd.sample(HOSTS[:6], nh)
+    lines, pairs = [], []
+    hv = {}
+    for h in hosts:
+        hv[h] = rnd.choice(teams[:2])
+        lines.append('pm_host name=%s vars=%s:%s%s' % (hx(h), hx('t'), hx(hv[h]), nav_attrs(rnd, 0.3)))
+    svc_hosts = rnd.sample(hosts, rnd.randint(0, nh - 1))           # at least one host without services
+    sv = {}
+    for h in svc_hosts:
+        for s_ in rnd.sample(SVCS[:3], rnd.choice((1, 1, 2))):
+            sv[(h, s_)] = rnd.choice(teams[:2])
+            lines.append('pm_svc host=%s name=%s vars=%s:%s%s' % (hx(h), hx(s_), hx('t'), hx(sv[(h, s_)]), nav_attrs(rnd, 0.3)))
+            pairs.append((h, s_))
+    free_hosts = [h for h in hosts if h not in svc_hosts]
+    t = 'Service' if pairs and rnd.random() < 0.4 else 'Host'
+    low = t.lower()
+    sc = 'h' if t == 'Host' else rnd.choice('sso')
+    team = rnd.choice(teams[:2])
+    k = rnd.random()
+    if k < 0.6:
+        pf = ['v%s:%s:%s' % (sc, hx('t'), hx(team))]
+    elif k < 0.75:
+        pf = ['v%s:%s:%s' % (sc, hx('t'), hx(team)), 'not']
+    elif k < 0.9:
+        pf = ['v%s:%s:%s' % (sc, hx('t'), hx(team)), nav_atom(rnd), rnd.choice(['and', 'or'])]
+    else:
+        pf = ['n%s:%s' % ('h', hx(rnd.choice(hosts)))]              # by name: the new object is permitted as well
+    es = []
+    for pat in (['objects/modify/' + t, 'objects/modify/*', 'objects/*'], ['actions/reschedule-check', 'actions/*'],
+                ['objects/query/' + t, 'objects/query/*'], ['objects/delete/' + t, 'objects/delete/*']):
+        if rnd.random() < 0.9:
+            es.append(hx(mangle_case(rnd, rnd.choice(pat))) + ('@' + ','.join(pf) if rnd.random() < 0.92 else ''))
+    rnd.shuffle(es)
+    lines.append('pm_user sig=1 perms=' + (';'.join(es) or '-'))
+    lines.append('pm_load')
+    lines.append('pm_perm perm=' + hx('objects/modify/' + t))
+    targets = list(free_hosts) if t == 'Host' else ['%s!%s' % p for p in pairs]
+    rnd.shuffle(targets)
+    allnames = hosts if t == 'Host' else ['%s!%s' % p for p in pairs]
+    for tgt in targets[:rnd.choice((1, 1, 2))]:
+        kind = rnd.choice(['modify'] * 9 + ['action'] * 5 + ['query'] * 4 + ['delete'] * 2)
+        cur = hv[tgt] if t == 'Host' else sv[tuple(tgt.split('!'))]
+        k = rnd.random()
+        if k < 0.75:
+            nv = rnd.choice([x for x in teams if x != cur])
+            nvars = 'nvars=%s:%s' % (hx('t'), hx(nv))
+        elif k < 0.9:
+            nvars = 'nvars=%s:%s,%s:%s' % (hx('t'), hx(cur), hx('os'), hx('x'))       # same team: the new object is permitted too
+        else:
+            nvars = 'nvars=%s:%s' % (hx('os'), hx('x'))                               # no team at all
+        extra = nvars
+        for sc2, (key, pool) in NAV.items():
+            if sc2 != 'k' and rnd.random() < 0.25:
+                extra += ' n%s=%s' % (key, hx(rnd.choice(pool)))
+        k = rnd.random()
+        if kind == 'action':
+            if k < 0.4:
+                q = 'type=%s %s=%s' % (t, low, hx(tgt))
+            elif k < 0.6:
+                q = '%s=%s' % (low, hx(tgt))
+            elif k < 0.8:
+                q = 'type=%s filter=%s' % (t, rnd.choice(['mo:' + hx('*'), 't']))
+            else:
+                others = [x for x in allnames if x != tgt]
+                q = 'type=%s %ss=%s' % (t, low, ','.join(hx(x) for x in rnd.sample(others, min(len(others), 1)) + [tgt]))
+        else:
+            if k < 0.4:
+                q = 'name=%s' % hx(tgt)
+            elif k < 0.55:
+                q = '%s=%s' % (low, hx(tgt))
+            elif k < 0.7:
+                others = [x for x in allnames if x != tgt]
+                q = '%ss=%s' % (low, ','.join(hx(x) for x in rnd.sample(others, min(len(others), rnd.choice((0, 1)))) + [tgt]))
+            elif k < 0.85:
+                q = 'filter=%s' % rnd.choice(['mo:' + hx('*'), 't', 'lo:%d' % len(tgt), 'mo:' + hx(tgt[:1] + '*')])
+            elif k < 0.93 and t == 'Host':
+                q = 'filter=nh:%s' % hx(tgt)                           # targeted fast path
+            else:
+                q = ''
+        lines.append(('pm_race kind=%s ptype=%ss target=%s %s lock=%d %s' % (kind, low, hx(tgt), extra, rnd.choice((1, 1, 1, 0)), q)).rstrip())
+        # afterwards the name belongs to the new object: the same request, sequentially
+        if rnd.random() < 0.6:
+            if kind == 'action':
+                lines.append('pm_http kind=action act=reschedule-check type=%s %s=%s' % (t, low, hx(tgt)))
+            else:
+                lines.append('pm_http kind=%s ptype=%ss name=%s' % (rnd.choice(['modify', 'query']), low, hx(tgt)))
+    return {'lines': lines, 'tags': {'family': 'race'}}
+
+
 def gen_field_tables_case():
     return {'lines': ['pm_fields type=%s' % t for t in ('Host', 'Service', 'CheckCommand', 'EventCommand', 'TimePeriod', 'Endpoint')],
             'tags': {'family': 'field-tables'}}
@@ -943,6 +1039,8 @@ def generate(seed, tier):
     for i in range(n // 6):
         cases.append(gen_join_names_case(rnd))
     cases.append(gen_field_tables_case())
+    for i in range(n // 10):
+        cases.append(gen_race_case(rnd))
     for i in range(n // 4):
         cases.append(gen_attrs_case(rnd))
     return cases
@@ -963,6 +1061,8 @@ def classify(case, detail, impl_lines):
         return 'permission-matching'
     if 'rejected-first' in detail or 'request-served' in detail:
         return 'reject-first'
+    if 'race:' in detail:
+        return 'act-on-unauthorised-object'
     if 'embedded-object' in detail:
         return 'embedded-object'
     if 'hidden-field' in detail:
@@ -972,6 +1072,11 @@ def classify(case, detail, impl_lines):
     if 'unpermitted' in detail or 'forbidden' in detail:
         return 'unpermitted-object'
     return 'other'
+
+
+def canon(lines):
+    # pm_race: whether the request was parked inside the permission filter is an input of the schedule, not an observation
+    return [re.sub(r' parked=[0-9?]', '', l) for l in lines]
 
 
 def keep_line(l):
@@ -1090,6 +1195,21 @@ def extra_stats(cases, impl):
                 kv = dict(p.split('=', 1) for p in l.split()[1:] if '=' in p)
                 if 'jsel' in kv or kv.get('joins'):
                     c['http_join_requests'] += 1
+            elif op == 'pm_aq':
+                kv = dict(p.split('=', 1) for p in l.split()[1:] if '=' in p)
+                un = lambda h: binascii.unhexlify(h).decode() if h and h != '-' else ''
+                al = [un(x) for x in kv['attrs'].split(',')] if 'attrs' in kv else None
+                c['aq_attrs:' + ('absent' if al is None else 'given')] += 1
+                if al and any(x in A_NAVOBJ for x in al): c['aq_attrs_names_object_valued_field'] += 1
+                if al and any(x in A_HIDDEN for x in al): c['aq_attrs_names_no_user_view_field'] += 1
+                if 'aj' in kv:
+                    jl = [un(x) for x in kv['aj'].split(',')]
+                    c['aq_joins_with_field_selector' if any('.' in x for x in jl) else 'aq_joins_bare'] += 1
+                if 'alljoins' in kv: c['aq_all_joins'] += 1
+                if 'meta' in kv: c['aq_meta'] += 1
+            elif op == 'pm_race':
+                kv = dict(p.split('=', 1) for p in l.split()[1:] if '=' in p)
+                c['race:' + kv.get('kind', '?')] += 1
             elif op == 'pm_glob':
                 c['globals_declared'] += 1
             elif op == 'pm_user':
@@ -1108,6 +1228,13 @@ def extra_stats(cases, impl):
             elif l.startswith('pm_http'):
                 c['http_404' if 'code=404' in l else 'http_ok'] += 1
                 if 'joins=' in l and 'joins=-' not in l: c['http_join_serialised'] += 1
+            elif l.startswith('pm_race'):
+                c['race_parked_in_permission_filter' if 'parked=1' in l else 'race_not_parked'] += 1
+                c['race_acted_' + (l.split('acted=')[1].split()[0] if 'acted=' in l else '?')] += 1
+            elif l.startswith('pm_aq'):
+                c['aq_' + (l.split('code=')[1].split()[0] if 'code=' in l else '?')] += 1
+                if ' joins=' in l and ' joins=-' not in l: c['aq_join_serialised'] += 1
+                if ' akeys=#' in l: c['aq_all_fields'] += 1
             elif l.startswith('pm_perm'):
                 c['perm_has' if 'has=1' in l else 'perm_missing'] += 1
                 if '!E' in l: c['perm_filter_throws'] += 1
